@@ -5,8 +5,8 @@ CHECK = dict(
                 objs=[('@REPO@/librfn/string.c', []), ('@REPO@/librfn/util.c', [])],
                 deadline=dict(quick=300, thorough=2400))],
     rule='vx_bfs over operation histories of the real mlog.c (static log reached by #include "mlog.c") against an unbounded-'
-         'list model (64-bit message count, no ring or fold arithmetic). 612 start states: message count P in '
-         '{0,1,254..258,510..514} built by P real mlog calls, and P = 2^31-1+j for j = -300..299 built by setting log.head = '
+         'list model (64-bit message count, no ring or fold arithmetic). 722 start states: message count P in '
+         '{0,1,254..258,510..514} built by P real mlog calls, P = 2^b + {-1,0,1,255,256} for b = 9..30 (every width the counter could be narrowed to), and P = 2^31-1+j for j = -300..299 built by setting log.head = '
          'P-300 and issuing 300 real mlog calls (ring content, slot alignment and the counter fold come from the real code). '
          'From each start all sequences of <= D operations over {mlog with 0,1,2,3 arguments, mlog_nice, mlog_clear}; after '
          'the start state and after every operation mlog_get_line(k) for k = -2..258 and 11 extreme k (INT_MIN..INT_MAX) '
@@ -14,8 +14,8 @@ CHECK = dict(
          'and consumed arguments, model) differs; "distinct" counts distinct observation tuples (all returned lines + dump '
          'text) with a hash set. Messages carry a global sequence number in their arguments, 0-argument messages one of 7 '
          'texts.',
-    bounds=dict(quick='612 start states x all operation sequences of length <= 4',
-                thorough='612 start states x all operation sequences of length <= 6; plus one run of 2^31+600 real mlog '
+    bounds=dict(quick='722 start states x all operation sequences of length <= 4',
+                thorough='722 start states x all operation sequences of length <= 6; plus one run of 2^31+600 real mlog '
                          'calls from an empty log with no positioning, compared with the model after every call for counts '
                          '<= 600 and >= 2^31-901 and every 2^26 calls, and required to produce, at each of the 600 '
                          'positioned counts, the same log state and observations as the positioned construction'),
@@ -35,7 +35,7 @@ CHECK.update(
               'states (including both sides of the 2^31 counter fold) against an unbounded-list model, plus a 2^31+600 call '
               'conformance run',
     level_text='Every sequence of up to 4 (quick) / 6 (thorough) operations from {mlog x 0..3 arguments, mlog_nice, '
-               'mlog_clear} from each of 612 start states - message counts 0, 1, 254..258, 510..514 and every count within '
+               'mlog_clear} from each of 722 start states - message counts 0, 1, 254..258, 510..514, around every power of two 2^9..2^30 and every count within '
                '300 of the 2^31-1 fold point - executed on the real mlog.c; after each operation all of mlog_get_line(-2..258 '
                'and extreme k) and mlog_dump are compared with an unbounded list. Thorough additionally crosses the fold with '
                '2^31+600 genuine calls and shows the positioned start states equal the genuinely reached ones.',
@@ -43,3 +43,22 @@ CHECK.update(
                'quick tier - the log.head positioning shortcut.',
     design_ref='DESIGN.md section 4, C20',
 )
+
+# build variants: the same enumeration on other builds of the librfn sources (conditional code such as __OPTIMIZE_SIZE__ /
+# __OPTIMIZE__ / __clang__, and compiler-dependent arithmetic, show only there); counted separately by the driver
+def _variants(parts, names):
+    out = []
+    for p in parts:
+        if p['name'] not in names:
+            continue
+        for tag, cc, flags, tiers in (('gcc -Os', 'gcc', ['-Os'], ('quick', 'thorough')), ('clang -O2', 'clang', [], ('thorough',))):
+            q = dict(p)
+            q['name'] = p['name'] + '_' + tag.split()[0] + tag.split()[1].strip('-')
+            q['variant'] = tag
+            q['cc'] = cc
+            q['cflags'] = list(p.get('cflags', [])) + flags
+            q['tiers'] = tiers
+            out.append(q)
+    return out
+CHECK['parts'] = CHECK['parts'] + _variants(CHECK['parts'], ['c20'])
+CHECK['bounds'] = dict((k, v + '; the whole enumeration repeated on a gcc -Os build' + (' and a clang -O2 build' if k == 'thorough' else '') + ' of the librfn sources (counted separately)') for k, v in CHECK['bounds'].items())
